@@ -471,7 +471,8 @@ def expected_sx(case, obs):
 
 # signatures of the oracle that correspond to clauses (A)-(D) of coq/C06/Spec.v:branch_ok
 STATEMENT_SIGS = {"lists-non-matching", "build-not-of-branch", "listed-not-contained", "not-earliest-build",
-                  "listed-twice", "missing", "not-merged-but-reachable", "not-merged-missing", "not-merged-twice",
+                  "listed-twice", "missing", "not-merged-but-reachable", "not-merged-reachable-head-outside",
+                  "not-merged-missing", "not-merged-twice",
                   "not-merged-extra", "build-label"}
 
 
@@ -661,7 +662,10 @@ def _check_order(case, proc, assign, exp, match, tagged, reach, order):
                 if cnt == 0 and any(c in reach[b] for b in builds_of):
                     out.append(("missing", f"{ref}: matching commit {c} is contained in a build of the branch but is not listed"))
                 if c in nm_listed:
-                    out.append(("not-merged-but-reachable", f"{ref}: commit {c} is reachable from the branch head {head} "
+                    # the open finding is exactly: the head lies inside (or equals the head of) a lower-sorted
+                    # branch (Props.property_iff); the same symptom with a head outside is something else
+                    sig = "not-merged-but-reachable" if head in L else "not-merged-reachable-head-outside"
+                    out.append((sig, f"{ref}: commit {c} is reachable from the branch head {head} "
                                 f"but is listed under 'not merged'"))
             else:
                 if cnt:
@@ -989,10 +993,31 @@ MODELLED = ("ak/ghist.py: ProjectRepo.iter_release_branches, BranchName, RGraph.
             "_read_branch, _mk_rcommits, _find_new_rcommits_in_build, not-merged pseudo build, get_builds_numbers (sorting), "
             "RBranch.get_rbuilds_list, RBuild.get_printable_rcommits; not modelled: GitRepo ref-file parsing, regex tag "
             "parsing, components/bumps, report rendering (the printed report is checked against the data by the oracle only)")
-TECHNIQUE = ("Coq proofs (induction over fuel / commit lists, invariants of the two nested DFS) on a hand-written Gallina "
-             "model + per-run correspondence check (vm_compute vs implementation on generated DAG histories) + "
-             "reachability-based oracle + constants/clauses regenerated from the source")
-LEVEL_TEXT = "see harness/props/c06.notes.md"
-LEVEL_NOTE = ("Trusted: Coq kernel + vm_compute; the hand model's fidelity (checked by correspondence, not proved); the "
-              "harness mock repository; the ast extractor.")
+TECHNIQUE = ("Coq proofs on a hand-written executable Gallina model of the single-repository part of ak/ghist.py: "
+             "an induction principle for the outer DFS (Inv3.visit_ind), a reduction invariant (the RCommit graph is sound and "
+             "complete for reachability, Inv3.GI), an exploration lemma for the inner DFS (Inv4.find_new_explore), a per-branch "
+             "invariant (Inv4.BI) and a between-branches invariant (Attr.BB) give the attribution statement for ALL acyclic DAG "
+             "histories; + per-run correspondence check (vm_compute vs implementation on generated DAG histories, the verified "
+             "statement checker report_okb evaluated on every case) + reachability-based oracle + constants/clause shapes "
+             "regenerated from the source")
+LEVEL_TEXT = ("partial (model-level proof + correspondence).  THEOREMS, for every acyclic history whose refs exist (any DAG: merges, "
+              "several roots, tags on merges, parallel tagged sub-branches, any times): attribution_guarded = the full statement "
+              "(clauses A-D of Spec.branch_ok for every branch: listed only if matching, under a tagged/head build commit of the "
+              "branch outside the lower-sorted branches that contains it and is minimal, exactly once when such a build exists, "
+              "at most once, never under 'not merged'; 'not merged' = exactly the matching commits of lower-sorted branches not "
+              "reachable from the head, each once; untagged head = 'not built') whenever no branch head lies inside a lower-sorted "
+              "branch; property_iff = the statement holds IFF no branch with a matching commit in its history has its head inside "
+              "a lower-sorted branch; report_characterised / not_merged_char_inside = what the report contains in that remaining "
+              "case (the open finding: no build, 'not merged' lists all matching commits of the lower branches) and that the "
+              "traversals never run out of fuel; attribution_refuted / not_merged_char_refuted = the unguarded statement is false "
+              "(witness in corpus); window_reads_all_branches = inside the 30-day window no branch is skipped; branch_order(+_numeric), "
+              "branches_sorted, master_last (strict total order on keys, numeric-aware, master last); only_matching, at_most_once "
+              "(every history); report_ok_spec (the executable checker decides exactly the statement).  ONLY TESTED (correspondence "
+              "model vs implementation + oracle on ~750 generated histories per quick run): that the hand model is the code; labels "
+              "of tagged builds, order of builds / commits inside a branch, the printed report, tag parsing.")
+LEVEL_NOTE = ("Trusted: Coq kernel + vm_compute; the hand model's fidelity (checked by correspondence on every run, not proved); the "
+              "harness mock repository; the ast extractor of the constants.  All theorems are about the model; the statement "
+              "(Spec.branch_ok) is tied to an executable checker by report_ok_spec and that checker is evaluated against the "
+              "independent Python oracle on every generated case.  One open finding (not-merged-but-reachable) is proved to be "
+              "the only failure mode (property_iff).  Details: harness/props/c06.notes.md.")
 DESIGN_REF = "DESIGN.md section 8, C06"
